@@ -61,6 +61,9 @@ type solverSpec struct {
 
 var solvers = []solverSpec{
 	{"z3-new", func(f string, t int) []string { return []string{"z3-new", fmt.Sprintf("-T:%d", t), f} }},
+	{"z3-new-bv2", func(f string, t int) []string {
+		return []string{"z3-new", fmt.Sprintf("-T:%d", t), "smt.bv.solver=2", f}
+	}},
 	{"z3", func(f string, t int) []string { return []string{"z3", fmt.Sprintf("-T:%d", t), f} }},
 	{"cvc5", func(f string, t int) []string {
 		return []string{"cvc5", "--produce-models", fmt.Sprintf("--tlimit=%d", t*1000), f}
@@ -255,7 +258,7 @@ func (g *gen) discharge(base string, opt dischargeOpts) []result {
 			if st != want && st != "sat" && st != "unsat" {
 				// fall back to the other solvers (cvc5 cannot parse z3 lambda arrays)
 				type ans struct{ st, out, name string }
-				ch := make(chan ans, 2)
+				ch := make(chan ans, 3)
 				n := 0
 				for _, s := range solvers[1:] {
 					if s.name == "cvc5" && hasLambda {
@@ -263,7 +266,7 @@ func (g *gen) discharge(base string, opt dischargeOpts) []result {
 					}
 					n++
 					go func(s solverSpec) {
-						st2, out2 := runSolver(s, file, maxi(opt.timeout/2, 2))
+						st2, out2 := runSolver(s, file, opt.timeout)
 						ch <- ans{st2, out2, s.name}
 					}(s)
 				}
